@@ -11,7 +11,7 @@ CONSTANTS DEPTH, NIMG, NSLIDES, OPS,
 VARIABLES st, hist
 DummyU == <<>>
 AllArgs == {"none", "w", "h", "both"}
-AllVias == {"stream", "path", "usedstream", "samepath"}     \* usedstream: a stream whose cursor is mid-way (the caller looked into it)
+AllVias == {"stream", "path", "usedstream", "samepath", "ingroup"}     \* usedstream: a stream whose cursor is mid-way (the caller looked into it)
 \* Impl layer of the image part names (Package.next_image_partname: the first free sequence number, whatever the extension):
 \* st.parts = the reachable image parts as [img, num]; st.used = images referenced from slides; st.logoLay = layout 11 still there
 Nums(parts) == {p.num : p \in parts}
